@@ -301,6 +301,8 @@ func runFile(c *Case) {
 	}
 	curSeries := -1
 	var curStored []uint64
+	c.Hex = hex.EncodeToString(vf.TrailerBytes)
+	c.Vals = vf.TrailerFixed
 	fail := func(col string, seg int, f string, a ...any) {
 		if c.Oracle == "" {
 			c.Oracle, c.Bad, c.BadCol, c.BadSeg = "roundtrip-differs", fmt.Sprintf(f, a...), col, seg
